@@ -449,45 +449,69 @@ func childC18(args []string) {
 		}
 	case "wait-cancel-then-ready":
 		// Cancelled first, ready right afterwards: the context's error must win.
-		// The check interval is long (300 ms) and the cancellation is placed in
-		// the middle of an interval, so that no tick is anywhere near it (with a
-		// tick and the cancellation pending at once even correct code may pick
-		// either); a case whose timing slipped to within 60 ms of a tick is skipped.
+		// No verdict rests on timing. cancel() closes the context's done channel,
+		// and closing a channel makes every goroutine that selects on it runnable
+		// before close returns. So after cancel() the waiting goroutine is either
+		// woken (runnable, running or already gone: it is given all the time it
+		// needs to yield the error before the component is marked ready), or it
+		// is still parked in its select, which means it is not selecting on the
+		// context at all; only then is the component marked ready at once, and
+		// whatever the goroutine yields at its next look is the verdict.
 		health.DefaultReadyCheckInterval = 300 * time.Millisecond
-		var wg sync.WaitGroup
+		const waiter = "health.(*Health).WaitForReady"
 		for i := from; i < to; i++ {
-			i := i
-			wg.Add(1)
-			go func() {
-				defer wg.Done()
-				h := health.NewHealth()
-				h.AddReadiness(hNames[0])
-				h.AddReadiness(hNames[1])
-				h.OnReady(hNames[0])
-				ctx, cancel := context.WithCancel(context.Background())
-				defer cancel()
-				t0 := time.Now()
-				ch := h.WaitForReady(ctx)
-				time.Sleep(time.Duration(120+10*(i%6)) * time.Millisecond)
-				at := time.Since(t0) % (300 * time.Millisecond)
-				if at < 60*time.Millisecond || at > 240*time.Millisecond {
-					out.add("wait_cancel_then_ready_skipped_near_a_tick", 1)
-					return
-				}
+			out.begin(i, "WaitForReady, cancelled, then ready")
+			h := health.NewHealth()
+			h.AddReadiness(hNames[0])
+			h.AddReadiness(hNames[1])
+			h.OnReady(hNames[0])
+			ctx, cancel := context.WithCancel(context.Background())
+			ch := h.WaitForReady(ctx)
+			// let it settle in its wait, somewhere inside a check interval
+			if !waitParked(waiter, "select|chan receive|sleep", 30*time.Second) {
+				out.inconclusive("C18 wait-cancel-then-ready: the waiting goroutine was not seen parked")
 				cancel()
+				continue
+			}
+			time.Sleep(time.Duration(20+10*(i%6)) * time.Millisecond)
+			cancel()
+			stillParked := true
+			for k := 0; k < 3 && stillParked; k++ {
+				stillParked = false
+				for _, g := range findG(parseDump(vlib.AllStacks()), waiter) {
+					if parkedState(g.State) {
+						stillParked = true
+					}
+				}
+				time.Sleep(time.Millisecond)
+			}
+			var e error
+			ok, got := true, false
+			if !stillParked {
+				out.add("wait_cancel_then_ready_woken_by_the_cancellation", 1)
+				select {
+				case e, ok = <-ch:
+					got = true
+				case <-time.After(30 * time.Second):
+				}
+				h.OnReady(hNames[1])
+			} else {
+				out.add("wait_cancel_then_ready_still_parked_after_cancel", 1)
 				h.OnReady(hNames[1])
 				select {
-				case e, ok := <-ch:
-					out.add("wait_cancel_then_ready_cases", 1)
-					if !ok || e != context.Canceled {
-						out.violation("C18:wait:cancelled-first-but-completed", fmt.Sprintf("the context was cancelled while a component was not ready; it became ready afterwards and WaitForReady completed (closed=%v err=%v) instead of yielding the context's error", !ok, e), map[string]any{"case": i})
-					}
+				case e, ok = <-ch:
+					got = true
 				case <-time.After(30 * time.Second):
-					out.violation("C18:wait:no-error-after-cancel", "WaitForReady yielded nothing 30 s after cancellation", map[string]any{"case": i})
 				}
-			}()
+			}
+			out.add("wait_cancel_then_ready_cases", 1)
+			switch {
+			case !got:
+				out.violation("C18:wait:no-error-after-cancel", "WaitForReady yielded nothing 30 s after cancellation", map[string]any{"case": i})
+			case !ok || e != context.Canceled:
+				out.violation("C18:wait:cancelled-first-but-completed", fmt.Sprintf("the context was cancelled while a component was not ready; the component became ready afterwards and WaitForReady completed (closed=%v err=%v) instead of yielding the context's error (waiting goroutine still parked after cancel(): %v)", !ok, e, stillParked), map[string]any{"case": i})
+			}
 		}
-		wg.Wait()
 		out.class("wait-cancel-then-ready")
 	case "wait":
 		health.DefaultReadyCheckInterval = time.Millisecond
@@ -596,7 +620,8 @@ func checkC18(r *vlib.Run) int {
 	r.Set("wait_ready_cases", stats["wait_ready_cases"])
 	r.Set("wait_cancel_cases", stats["wait_cancel_cases"])
 	r.Set("wait_cancel_then_ready_cases", stats["wait_cancel_then_ready_cases"])
-	r.Set("wait_cancel_then_ready_skipped_near_a_tick", stats["wait_cancel_then_ready_skipped_near_a_tick"])
+	r.Set("wait_cancel_then_ready_woken_by_the_cancellation", stats["wait_cancel_then_ready_woken_by_the_cancellation"])
+	r.Set("wait_cancel_then_ready_still_parked_after_cancel", stats["wait_cancel_then_ready_still_parked_after_cancel"])
 	r.Require(counts["Ok"] > 50, "fewer than 50 steered histories checked by porcupine")
 	r.Require(stats["porcupine:Ok"] >= nPert*9/10, "fewer than 90% of the perturbed histories were decided Ok by porcupine")
 	r.Require(stats["wait_ready_cases"]+stats["wait_cancel_cases"] >= nWait*9/10, "too few WaitForReady cases")
